@@ -338,6 +338,13 @@ class Evaluator(abc.ABC):
             if np.isscalar(job.objective):
                 if np.isreal(job.objective) and not (np.isfinite(job.objective)):
                     job.output["objective"] = Evaluator.FAIL_RETURN_VALUE
+            elif isinstance(job.objective, (tuple, list)):
+                # a non-finite value in any of the objectives is a failure
+                if any(
+                    np.isscalar(obj_i) and np.isreal(obj_i) and not (np.isfinite(obj_i))
+                    for obj_i in job.objective
+                ):
+                    job.output["objective"] = Evaluator.FAIL_RETURN_VALUE
 
             # store data in storage
             self._storage.store_job_out(job.id, job.objective)
